@@ -155,9 +155,12 @@ PROPS = {
         "trusted_base": ["hand-written whole-program model GGV.Model.Prog, tied by the prog correspondence (real analyzers in-process vs model)", "APF extractor (go/ast + go/types, independent of gogreement)"] + ["table T6 regenerated from /repo (package-level variables and their write sites, by go/ast + go/types)"],
     },
     "C12": {
-        "theorems": T("C12", ["move_decl", "perm_decls", "annotations_order_free", "index_order_free", "reported_keys_order_free", "plain_order_free", "checkImmutable_decls", "checkConstructor_decls"]),
+        "theorems": T("C12", ["move_decl", "perm_decls", "annotations_order_free", "index_order_free", "reported_keys_order_free", "plain_order_free", "checkImmutable_decls", "checkConstructor_decls",
+                               "suppressed_mapPos", "ignores_agree", "relayout_invariant"]) +
+                    ["GGV.Model.Prog.ignoreOps_mapPos", "GGV.Model.Prog.checkImmutable_mapPos", "GGV.Model.Prog.checkConstructor_mapPos",
+                     "GGV.Model.Prog.checkTestOnly_mapPos", "GGV.Model.Prog.checkPackageOnly_mapPos", "GGV.Model.Prog.readAnnotations_mapPos"],
         "suites": [("layout", {"kind": "layout"})],
-        "assumptions": ["blank lines, plain comments, gofmt and local renaming change only positions / local identifiers: invariance under them is tied by the metamorphic layout suite on the real analyzers, not proved",
+        "assumptions": ["blank lines, comments, gofmt: proved as invariance under a re-layout (strictly increasing position map fixing 0, injective line map) — relayout_invariant; positions inside Decl.info (read only by the @implements pipeline) are outside that theorem; local renaming is tied by the metamorphic layout suite on the real analyzers, not proved",
                         "moving declarations between files is compared without file-level @ignore comments (a file-level comment legitimately follows the file, not the declaration)"],
         "trusted_base": ["hand-written whole-program model GGV.Model.Prog, tied by the prog correspondence (real analyzers in-process vs model)", "APF extractor (go/ast + go/types, independent of gogreement)"],
     },
